@@ -710,6 +710,11 @@ class CodeGen:
                 # TODO: the case of speculation in bool_expr_branch can
                 #  be optimized, especially eg: if (f() ?? true) {}
                 end_speculation = self.add_label('end_speculation')
+                # r_out may be a global variable being assigned to, which
+                # the left side must still see unchanged: use a register.
+                if r_out not in (self.r0, self.r1, self.r2):
+                    r_out = self.r1
+                    result = asm.State(r_out)
                 right_bubble = yield from self.eval_expr(r_out, expr.right, keep=True)
                 yield from right_bubble.value.to(r_out)
                 yield asm.Jump(end_speculation)
